@@ -27,6 +27,8 @@ def st1_stop_is_close_plus_join(ctx, rep, entry="stop", body=None):
     lr = ctx.lr(stop)
     fn = short(stop.path)
     n = 0
+    from rules.queue import slot_refills
+    pool_never_refilled = not slot_refills(ctx, A.f_pool)
     for p in pe.paths:
         if p.end != "return":
             continue
@@ -42,6 +44,14 @@ def st1_stop_is_close_plus_join(ctx, rep, entry="stop", body=None):
                 closes.append(e)
         ptakes = [e for e in evs if e.ck in ("std::option::Option::take", "std::mem::take") and _is_slot(ctx, e.args[0], A.f_pool)]
         joins = [e for e in evs if e.ck in POOL_JOIN]
+        # the pool slot is only ever emptied: a path that saw it empty and later takes a pool
+        # out of it combines two reads that cannot both happen
+        if ptakes and pool_never_refilled:
+            saw_none_before = any(k[0] == "discr" and str(v).lstrip("*") == "None" and _is_slot(ctx, k[1], A.f_pool) and k[1] != ptakes[0].result and (k[1][0] != "vfield") for (k, v) in p.decisions)
+            took_some = any(k[0] == "discr" and (k[1] == ptakes[0].result or k[1] == ptakes[0].result[1]) and v == "Some" for (k, v) in p.decisions)
+            if saw_none_before and took_some:
+                n += 0
+                continue
         # a path on which the slot was found empty has nothing left to close
         ok1 = len(closes) >= 1 or _slot_seen_empty(ctx, p, A.f_tx)
         rep.check(ok1, R, "closes-first:" + fn, ctx.where(stop), "path [%s] closes the dispatch queue" % p.describe(), "path [%s] returns without closing the dispatch queue" % p.describe())
@@ -60,14 +70,22 @@ def st1_stop_is_close_plus_join(ctx, rep, entry="stop", body=None):
         if some is None:
             rep.bad(R, "join-decision:" + fn, ctx.where(stop), "path [%s] never tests whether a pool was taken" % p.describe())
             continue
+        # a join of a clone of the pool made while it still sits in its slot ("wait for the
+        # backlog before retiring the pool") is a join of the same pool
+        on_taken = [j for j in joins if strip_wrap(j.args[0]) == ("vfield", tk.result, "Some", 0)]
+        pre = [j for j in joins if j not in on_taken and p.events.index(j) < p.events.index(tk) and _is_slot(ctx, j.args[0], A.f_pool)
+               and not any(st[0] == "take" for st in subterms(j.args[0]))]
         if some:
-            good = len(joins) == 1 and strip_wrap(joins[0].args[0]) == ("vfield", tk.result, "Some", 0)
-            rep.check(good, R, "joins-taken-pool:" + fn, ctx.where(stop, joins[0].bb) if joins else ctx.where(stop), "path [%s] joins the pool it took" % p.describe(), "path [%s]: %d join call(s); stop() is not a barrier" % (p.describe(), len(joins)))
+            good = (len(on_taken) == 1 or (not on_taken and len(pre) >= 1)) and len(on_taken) + len(pre) == len(joins)
+            rep.check(good, R, "joins-taken-pool:" + fn, ctx.where(stop, joins[0].bb) if joins else ctx.where(stop), "path [%s] joins the pool it took" % p.describe(), "path [%s]: %d join call(s), %d of them on the pool of the slot; stop() is not a barrier" % (p.describe(), len(joins), len(on_taken) + len(pre)))
             for j in joins:
                 may, must = ctx.held_for_event(j)
                 rep.check(not may, R, "join-without-store-lock:" + fn, ctx.where(stop, j.bb), "the join runs with no store lock held", "the join runs while holding %s, which the joined threads need" % sorted(may))
         else:
-            rep.check(not joins, R, "no-join-without-pool:" + fn, ctx.where(stop), "nothing to join when the pool is already gone (second stop returns immediately)", "join on a path without a pool")
+            rep.check(len(pre) == len(joins), R, "no-join-without-pool:" + fn, ctx.where(stop), "nothing to join when the pool is already gone (second stop returns immediately)", "join on a path without a pool")
+            for j in pre:
+                may, must = ctx.held_for_event(j)
+                rep.check(not may, R, "join-without-store-lock:" + fn, ctx.where(stop, j.bb), "the join runs with no store lock held", "the join runs while holding %s, which the joined threads need" % sorted(may))
     rep.floor(R, "paths through %s" % entry, n, 2, ctx.where(stop))
     if entry == "stop" and body is None:
         try:
